@@ -443,6 +443,7 @@ def specOk (m : AL Nat) : Op → Out → Prop
   | .keys, o => ∃ ks, o = .list ks ∧ ks.Perm (AL.keys m)
   | .values, o => o = .list (m.map (·.2))
   | .forEach, o => o = .pairs m
+  | .forEachN n, o => o = .nat (Shrink.visits n m.length)
   | .randKey _, o => (o = .val none ∧ m.length = 0) ∨ ∃ k, o = .val (some k) ∧ k ∈ AL.keys m
   | .randEntry _, o => (o = .val none ∧ m.length = 0) ∨ ∃ k v, o = .val (some v) ∧ AL.get m k = some v
   | .randUnique n perm, o =>
@@ -466,6 +467,7 @@ theorem step_allowed {s : St} (h : Inv s) (op : Op) :
   | keys => exact ⟨⟨_, rfl, keysOut_perm h⟩, rfl⟩
   | values => exact ⟨by simp [specOk, step, absm, AL.mapVal, List.map_map, Function.comp_def], rfl⟩
   | forEach => exact ⟨by simp [specOk, step, absm, AL.mapVal], rfl⟩
+  | forEachN n => exact ⟨by simp [specOk, step, absm, AL.length_mapVal], rfl⟩
   | randKey c =>
     refine ⟨?_, rfl⟩
     obtain ⟨h1, h2⟩ := randKey_spec h c
